@@ -95,6 +95,9 @@ Drift(c, e, S, P) ==
                     /\ ~e.parked
                     /\ \/ (ch = {} /\ SentSet(e) = {})
                        \/ \E nx \in ch : RelayStep(S, n, MsgOf(e.m), nx).out = SentSet(e))
+        ELSE IF e.m.dest \in DOMAIN S.finding
+        THEN \* a search for the destination is already running at this node: the handler waits for it
+             Clause("relay_search_differs_from_model", SentSet(e) = {} /\ e.parked)
         ELSE \* no stored hop off the path: the handler searches (FindStep) and waits
              Clause("relay_search_differs_from_model",
                     /\ relays = {}
@@ -116,12 +119,14 @@ Drift(c, e, S, P) ==
         \o Clause("table_differs_from_model", r.S.tb = o.tb)
         \o Clause("pending_differs_from_model", r.S.resp = o.resp /\ r.S.reqlog = o.reqlog)
         \o Clause("address_book_differs_from_model", r.S.book = o.book)
-        \o Clause("findroute_returns_differ_from_model", r.done \ {p.dest : p \in woken} = {e.finds[j].t : j \in DOMAIN e.finds})
+        \o Clause("findroute_returns_differ_from_model",
+                  LET obs == {e.finds[j].t : j \in DOMAIN e.finds}
+                  IN obs \subseteq r.done /\ r.done \ {p.dest : p \in woken} \subseteq obs)
 
 \* finding after the event: the model's, minus whatever was observed to return
 FindingAfter(c, e, S) ==
   LET f == IF e.op = "find" /\ e.fwd # <<>> THEN (e.t :> ToSet(e.fwd)) @@ S.finding
-           ELSE IF IsRelayDeliver(e) /\ e.parked THEN (e.m.dest :> ToSet(e.fwd)) @@ S.finding
+           ELSE IF IsRelayDeliver(e) /\ e.parked /\ e.m.dest \notin DOMAIN S.finding THEN (e.m.dest :> ToSet(e.fwd)) @@ S.finding
            ELSE S.finding
       gone == {e.finds[j].t : j \in DOMAIN e.finds}
               \cup (IF e.op = "deliver" /\ e.resumed THEN {e.m.dest} ELSE {})
